@@ -76,6 +76,12 @@ T = [
  ("C18-pubkey-length", "C18", "sub-agent",
   "a public key altered by APPENDING bytes (bit flips and truncations are still refused)",
   "First run: NOT DETECTED (ecvrf_impl.rs was wholly trusted) -> Kani harnesses c18_public_key_length / c18_proof_length added (curve operations stubbed, every input length symbolic); now VIOLATION C18 no-failing-input-found: kani/c18_public_key_length"),
+ ("C19-absent-optional-becomes-empty", "C19", "sub-agent",
+  "an update proof for version 1 (Complete history, or MostRecent(n) reaching the first version): only there are the previous-version fields absent",
+  "First run: NOT DETECTED (composite converters were outside the harnesses; Kani did not finish on them) -> bounded whole-proof wire round trip on the real code added; now VIOLATION C19 with failing input: complete history of 'a' comes back with previous_version_vrf_proof Some([]) instead of None"),
+ ("C19-short-digest-panics", "C19", "sub-agent",
+  "a digest field of fewer than 32 bytes (31, 16, 1, 0); over-long digests still return errors",
+  "VIOLATION C19 no-failing-input-found: kani/c19_digest_parse (try_parse_digest must be Err, without panic, for every length other than 32)"),
 ]
 rows = []
 for (sid, prop, src, needs, res) in T:
